@@ -11,6 +11,7 @@ Text is `List Char` inside the model (`Str`); `String` only at the boundary.
 -/
 import AgModel.Render
 import AgModel.Record
+import AgModel.CharWidth
 
 namespace Ag
 namespace Pretty
@@ -111,14 +112,31 @@ def Env.maxWidth (env : Env) : Nat :=
 /-- the text of a cell -/
 def cellText (v : Value) : Str := v.render.toList
 
-/-- `format_with_ellipsis` (printer.rs:272-288).  Since 9f65de4 a column narrower than 2 cells cuts
-the text to the column width instead of computing `limit - 2` (which underflowed); the function can
-no longer panic, the `Outcome` is kept for the callers' shape. -/
+/-- `display_width` (printer.rs): the terminal cells a text occupies — the sum of its characters'
+widths (`charWidth`, AgModel/CharWidth.lean: the `unicode-width` crate's table; wide East-Asian
+characters and emoji 2, combining marks and control characters 0) -/
+def dispWidth : Str → Nat
+  | [] => 0
+  | c :: cs => charWidth c + dispWidth cs
+
+/-- `take_width` (printer.rs): the longest prefix that fits into `limit` cells -/
+def takeWidth : Nat → Str → Str
+  | _, [] => []
+  | limit, c :: cs => if charWidth c ≤ limit then c :: takeWidth (limit - charWidth c) cs else []
+
+/-- pad with blanks up to `limit` CELLS -/
+def padW (limit : Nat) (s : Str) : Str := s ++ List.replicate (limit - dispWidth s) ' '
+
+/-- `format_with_ellipsis` (printer.rs): the text in exactly `limit` terminal cells — padded with
+blanks when it fits; otherwise the longest prefix fitting `limit − 2` cells, `… `, and a blank more
+when a wide character did not fit any more; in a column narrower than 2 just the prefix that fits.
+Since 0950730 everything is measured in display cells (before: characters).  The function cannot
+panic (9f65de4); the `Outcome` is kept for the callers' shape. -/
 def fmtEllipsis (inp : Str) (limit : Nat) : Outcome Str :=
-  if inp.length > limit then
-    if limit < 2 then .ok (inp.take limit)
-    else .ok (inp.take (limit - 2) ++ ['…', ' '])
-  else .ok (padTo limit inp)
+  if dispWidth inp > limit then
+    if limit < 2 then .ok (padW limit (takeWidth limit inp))
+    else .ok (padW limit (takeWidth (limit - 2) inp ++ ['…', ' ']))
+  else .ok (padW limit inp)
 
 /-- one entry of `compute_column_widths` -/
 def newWidth (cfg : Cfg) (widths : WMap) (name : String) (v : Value) : Nat :=
@@ -251,8 +269,8 @@ def tableParts (env : Env) (widths : WMap) (t : Table) : Outcome (WMap × Parts)
         let header := concat hs
         match bodyLines w2 t.columns t.rows with
         | .ok body =>
-          -- `header.trim_end()` (439c1ac) and `"-".repeat(header.chars().count())` (0faaa16)
-          .ok (w2, { header := Text.trimEnd header, sep := List.replicate header.length '-', body := body })
+          -- `header.trim_end()` (439c1ac) and `"-".repeat(display_width(&header))` (0faaa16, 0950730)
+          .ok (w2, { header := Text.trimEnd header, sep := List.replicate (dispWidth header) '-', body := body })
         | .panic p => .panic p
         | .err k => .err k
         | .unmodelled u => .unmodelled u
